@@ -86,10 +86,12 @@ int main(int argc, char** argv) {
     std::vector<unsigned> ns = T ? std::vector<unsigned>{8, 12, 13, 16, 24} : std::vector<unsigned>{8, 9};
     std::vector<unsigned> nbs = T ? std::vector<unsigned>{2, 3, 4} : std::vector<unsigned>{2};
     if (D) { ns.push_back(32); ns.push_back(33); nbs.push_back(5); nbs.push_back(6); }
+    nbs.push_back(260); if (D) nbs.push_back(515);      // long trains (bunch numbers beyond 8 and 9 bits), on the smallest grid only
     for (unsigned n : ns) for (unsigned nb : nbs) for (int kind = 0; kind < NKIND; kind++) for (unsigned it = 1; it <= 4; it++)
     for (int var = 0; var < 4; var++) for (int dv = 0; dv < 3; dv++) {     // dv 2: the bunches after the first hold bit-identical data (which differs from the first bunch's)
         // var 3: rows of one bunch displaced beyond the grid (y-kick fields); for the Fokker-Planck kinds var selects the variant {none, damping, diffusion, full}
         if (var == 3 && kind != KICKY && kind != FP3 && kind != FP4) continue;
+        if (nb > 100 && (n != 8 || (it != 1 && it != 4) || dv == 1)) continue;
         FPT = var;
         CLAMP = ((n + nb + it + var + dv + kind) % 2) == 1;
         if ((kind == FP3 || kind == FP4 || kind == IDENT) && it > 1) continue;   // interpolation order is not a parameter of these
@@ -163,6 +165,6 @@ int main(int argc, char** argv) {
             }
         }
     }
-    R.bound_done(std::string("map classes x n x nb x it x 3 parameter variants (+ off-grid rows for y-kicks; all 4 Fokker-Planck variants) x 3 data variants (one with identical bunches behind a different first one), ") + (T ? "n{8,12,13,16,24} nb{2,3,4}" : "n{8,9} nb{2}"));
+    R.bound_done(std::string("map classes x n x nb x it x 3 parameter variants (+ off-grid rows for y-kicks; all 4 Fokker-Planck variants) x 3 data variants (one with identical bunches behind a different first one), ") + (T ? "n{8,12,13,16,24} nb{2,3,4} + trains of 260 (515) bunches on 8 cells" : "n{8,9} nb{2}"));
     return R.finish();
 }
